@@ -27,7 +27,7 @@ BANKS = ["0", "0L", "1", "202", "203", "204", "205", "206", "207"]
 
 def plan(tier, seed):
     sh = []
-    reps = 1 if tier == "quick" else 6
+    reps = 1 if tier == "quick" else 24
     for b in BANKS:
         for rep in range(reps):
             sh.append({"kind": "single", "bank": b, "rep": rep, "images": 24 if tier == "quick" else 48})
